@@ -198,12 +198,10 @@ class poller_modbus( poller, threading.Thread ):
             # TODO: Split on and optimize counts for differing multi-register
             # limits for Coils, Registers
 
-            # WARN: list comprehension over self._data must be atomic, because
-            # we don't lock, and someone could call read/poll, adding entries to
-            # self._data between reads.  However, since merge's register ranges
-            # are sorted, all self._data keys are consumed before the list is
-            # iterated.
-            rngs		= set( merge( ( (a,1) for a in self._data ), reach=self.reach ))
+            # WARN: the traversal of self._data must be atomic, because we don't lock, and someone
+            # could call read/poll, adding entries to self._data meanwhile (a generator over the
+            # dict is pulled item by item by merge's sorted); take a snapshot of its keys first.
+            rngs		= set( merge( ( (a,1) for a in list( self._data )), reach=self.reach ))
             succ		= set()
             fail		= set()
             busy		= 0.0 # time spent polling (excluding time blocked, ie. writes)
